@@ -14,7 +14,7 @@ ASSUMPTIONS = ["hashlib (OpenSSL) is the reference for the primitives; RIPEMD-16
 NSHARDS = {"quick": 16, "thorough": 32}
 BUDGET_S = {"quick": 200, "thorough": 1500}
 MIN_HITS = {
-    'quick': {"hash": 903, "hmac": 675, "pbkdf2": 147, "chunks": 5642, "mnemonic": 2, "reuse": 42},
+    'quick': {"hash": 903, "hmac": 675, "pbkdf2": 201, "chunks": 5642, "mnemonic": 2, "reuse": 42},
     'thorough': {"hash": 7203, "hmac": 5281, "pbkdf2": 237, "chunks": 79080, "mnemonic": 7},
 }
 FN = ["sha1", "sha256", "sha256d", "sha512", "ripemd160", "hash160"]
@@ -139,6 +139,10 @@ def cases(ctx):
         for kind in kinds[:3]:
             for rev in (False, True):
                 yield {"k": "chunks", "kind": kind, "chunks": [m[:cut].hex(), m[cut:].hex()], "reverse": rev, "reuse": True}
+                # empty chunks at the end, at the start and in the middle of the sequence of updates
+                for shape in ([m.hex(), ""], ["", m.hex()], [m[:cut].hex(), "", m[cut:].hex()], [m[:cut].hex(), m[cut:].hex(), "", ""], [""], ["", ""]):
+                    yield {"k": "chunks", "kind": kind, "chunks": shape, "reverse": rev, "reuse": True, "empty_chunks": True}
+                    yield {"k": "chunks", "kind": kind, "chunks": shape, "reverse": rev, "empty_chunks": True}
     for _ in range(12000 if t else 20):
         m = gen.rbytes(r, r.choice([64, 65, 127, 128, 129, 200, 1000]))
         cuts = sorted(r.randrange(len(m) + 1) for _ in range(r.choice([2, 3, 5, 9])))
@@ -248,6 +252,8 @@ def judge(ctx, case):
         if case["reverse"]:
             exp = exp[::-1]
             ctx.hit("reversed")
+        if case.get("empty_chunks"):
+            ctx.hit("empty_chunks")
         if case.get("reuse"):
             ctx.hit("reuse")
             outs = r.get("ok")
